@@ -728,7 +728,10 @@ def build_functions(sc: Scenario, broker: AsyncBroker) -> None:
             lines.append(f"    await _dep_lat({lat!r})")
         if nd.get("raise_open"):
             lines.append(f"    _sc.trace.add('dep_raise', _d, dep={name!r})")
-            lines.append(f"    raise DepBoom({name!r})")
+            # (the failure may be of any class - a connect that timed out, a lookup that failed)
+            xc = {"TimeoutError": "TimeoutError", "asyncio.TimeoutError": "asyncio.TimeoutError", "ConnectionError": "ConnectionError",
+                  "KeyError": "KeyError"}.get(nd.get("raise_open_exc") or "", "DepBoom")
+            lines.append(f"    raise {xc}({name!r})")
         lines.append(f"    _sc.trace.add('dep_open', _d, dep={name!r}, echo={echo}, subs={subs_v})")
         val = f"{{'dep': {name!r}, 'echo': {echo}, 'subs': {subs_v}}}"
         if style in ("plain_sync", "plain_async"):
